@@ -16,7 +16,8 @@ PROPERTY = "C17"
 RULE = ("1-8 molecules with arbitrary distinct ids, 0-40 labels (0 => skipped), one-decimal coordinates incl. duplicates, end-marker "
         "row with channel 0, 0-2 extra columns, permuted column order, shuffled rows, permuted molecule order, id filters (subset, "
         "non-existent ids, empty => all), through both readQueries and readReferences; trim() on every map read.  non-trivial = "
-        "file with shuffled rows and (a label-less molecule or an id filter); distinct = distinct case")
+        "file with shuffled rows and (a label-less molecule or an id filter); program-maps: the reference and query maps a Program built from "
+        "the command line holds (two files, or the same file for both, -rId/-qId independently present); distinct = distinct case")
 ASSUMPTIONS = ["every molecule has exactly one end-marker row (LabelChannel 0) carrying its ContigLength, as CMAP files do",
                "inter-label distances after trim compared within 1e-6"]
 
@@ -66,6 +67,97 @@ def check(case):
     return {"nontrivial": nt, "classes": cl}
 
 
+def check_program(case):
+    """the maps the program itself works on: Program(Args.parse(argv)) reads the reference file and the query file (possibly
+    the same file: self-alignment) with the -rId / -qId filters and trims the queries"""
+    import os
+    import shutil
+    import tempfile
+    from src.args import Args
+    from src.program import Program
+    d = tempfile.mkdtemp(prefix="coma_c17_")
+    args = None
+    try:
+        rp = os.path.join(d, "r.cmap")
+        with open(rp, "w") as f:
+            f.write(cmap_text.cmap_text(case["refs"], case.get("ref_rows")))
+        if case["same_file"]:
+            qp, qmaps = rp, case["refs"]
+        else:
+            qp, qmaps = os.path.join(d, "q.cmap"), case["queries"]
+            with open(qp, "w") as f:
+                f.write(cmap_text.cmap_text(qmaps, case.get("qry_rows")))
+        argv = ["-r", rp, "-q", qp, "-o", os.path.join(d, "o.xmap"), "-pb"]
+        for opt, ids in (("-rId", case["rid"]), ("-qId", case["qid"])):
+            if ids:
+                argv += [opt] + [str(i) for i in ids]
+        args = sut(Args.parse, argv)
+        prog = sut(Program, args)
+        for name, got, maps, flt, trimmed in (("reference", prog.referenceMaps, case["refs"], case["rid"], False),
+                                              ("query", prog.queryMaps, qmaps, case["qid"], True)):
+            labelled = {m["id"]: m for m in maps if m["labels"]}
+            want = {i: m for i, m in labelled.items() if (not flt) or i in flt}
+            ids = [int(g.moleculeId) for g in got]
+            req(sorted(ids) == sorted(want), "program-molecule-set-wrong",
+                f"{name} maps of the program: ids {sorted(ids)}, expected {sorted(want)} (-rId {case['rid']}, -qId {case['qid']}, same file: {case['same_file']})")
+            for g in got:
+                m = want[int(g.moleculeId)]
+                exp = sorted(float(f"{p:.1f}") for p in m["labels"])
+                gp = [float(p) for p in g.positions]
+                if trimmed:
+                    req(len(gp) == len(exp) and all(abs(a - (b - exp[0])) <= 1e-6 for a, b in zip(gp, exp)), "program-query-not-trimmed",
+                        lambda: f"query {m['id']}: positions {gp[:6]}.., expected the labels relative to the first one {[round(b - exp[0], 1) for b in exp[:6]]}..")
+                    req(abs(g.length - (exp[-1] - exp[0] + 1)) <= 1e-6, "program-query-length-wrong",
+                        f"query {m['id']}: length {g.length}, last-first+1 = {exp[-1] - exp[0] + 1}")
+                else:
+                    req(gp == exp, "program-reference-labels-wrong", lambda: f"reference {m['id']}: positions {gp[:6]}.., expected {exp[:6]}..")
+                    req(g.length == int(float(f"{m['length']:.1f}")), "program-reference-length-wrong",
+                        f"reference {m['id']}: length {g.length}, end marker says {m['length']}")
+        cl = ["same-file" if case["same_file"] else "two-files", "rid" if case["rid"] else "no-rid", "qid" if case["qid"] else "no-qid"]
+        return {"nontrivial": bool(case["rid"]) != bool(case["qid"]) or case["same_file"], "classes": cl}
+    finally:
+        if args is not None:
+            for f in (args.referenceFile, args.queryFile, args.outputFile):
+                try:
+                    f.close()
+                except Exception:  # noqa: BLE001
+                    pass
+        shutil.rmtree(d, ignore_errors=True)
+
+
+def _maps(draw, n, idpool):
+    ids = draw(st.lists(idpool, min_size=n, max_size=n, unique=True))
+    maps = []
+    for i in ids:
+        k = draw(st.one_of(st.integers(0, 2), st.integers(1, 12)))
+        x = draw(st.sampled_from([0, 0, 1])) * draw(st.integers(0, 200000)) / 10
+        labels = []
+        for _ in range(k):
+            labels.append(round(x, 1))
+            x += draw(st.one_of(st.just(0), st.integers(1, 200000))) / 10
+        length = round((labels[-1] if labels else 0) + draw(st.sampled_from([0, 0.4, 1, 1])) * draw(st.integers(0, 300000)) / 10, 1)
+        maps.append({"id": i, "labels": labels, "length": length})
+    return maps
+
+
+@st.composite
+def program_strategy(draw):
+    pool = st.integers(1, 12)
+    refs = _maps(draw, draw(st.integers(1, 5)), pool)
+    same = draw(st.integers(0, 2)) == 0
+    queries = refs if same else _maps(draw, draw(st.integers(1, 5)), pool)
+
+    def flt(maps):
+        ids = [m["id"] for m in maps]
+        return draw(st.one_of(st.none(), st.none(), st.lists(st.one_of(st.sampled_from(ids), pool), min_size=1, max_size=4, unique=True)))
+    case = {"refs": refs, "queries": [] if same else queries, "same_file": same, "rid": flt(refs), "qid": flt(queries)}
+    if draw(st.booleans()):
+        case["ref_rows"] = draw(st.permutations(range(cmap_text.n_rows(refs))))
+    if not same and draw(st.booleans()):
+        case["qry_rows"] = draw(st.permutations(range(cmap_text.n_rows(queries))))
+    return case
+
+
 @st.composite
 def strategy(draw):
     n = draw(st.integers(1, 8))
@@ -93,6 +185,9 @@ def subchecks(tier):
     q = tier == "quick"
     subs = [Sub("read-and-trim", "hyp", check, strategy=strategy, examples=5000 if q else 100000, shrink_budget=400,
                 required_classes=("label-less", "ghost-id", "permuted-columns", "shuffled"))]
+    subs.append(Sub("program-maps", "hyp", check_program, strategy=program_strategy, examples=2400 if q else 60000, shrink_budget=300,
+                    describe="reference and query maps as Program reads them (two files or one file for both, -rId/-qId, queries trimmed)",
+                    required_classes=("same-file", "rid", "qid")))
     if not q:
         subs.append(fuzz_variant(next(s for s in subs if s.name == "read-and-trim"), 15000))
     return subs
